@@ -750,7 +750,16 @@ pub fn check_c17(gs: &GraphSpec, st: &mut Stats, out: &mut Vec<Violation>) {
         let back_json = json.clone().and_then(|y| serde_json::from_str::<GraphInfo<usize>>(&y).map_err(|e| e.to_string()));
         let yaml2 = back_yaml.as_ref().ok().map(|b| serde_yaml_ng::to_string(b).unwrap_or_default());
         let eq_yaml = back_yaml.as_ref().map(|b| *b == gi).map_err(|e| e.clone());
-        let eq_json = back_json.as_ref().map(|b| *b == gi).map_err(|e| e.clone());
+        let mut eq_json = back_json.as_ref().map(|b| *b == gi).map_err(|e| e.clone());
+        // (one graph in six: seven more round trips each would dominate the run)
+        let more = if crate::runner::hash_of(gs) % 6 == 0 { other_transports(&gi) } else { Vec::new() };
+        for (what, back) in more {
+            match back {
+                Ok(b) if b == gi => {}
+                Ok(_) => eq_json = Err(format!("{what}: came back different")),
+                Err(e) => eq_json = Err(format!("{what}: {e}")),
+            }
+        }
         let back_edges: Option<Vec<(usize, usize, BK)>> = back_yaml.as_ref().ok().map(|b| b.graph.raw_edges().iter().map(|e| (e.source().index(), e.target().index(), tfn::bk(e.weight))).collect());
         let back_nodes: Option<Vec<usize>> = back_yaml.as_ref().ok().map(|b| b.graph.raw_nodes().iter().map(|n| n.weight).collect());
         (nodes, edges, it, it_rev, ins, yaml, yaml2, eq_yaml, eq_json, back_edges, back_nodes)
@@ -873,6 +882,16 @@ pub fn check_c17(gs: &GraphSpec, st: &mut Stats, out: &mut Vec<Violation>) {
                 }
             }
         }
+        for (what, back) in other_transports(&gi) {
+            match back {
+                Err(e) => return Some(format!("hand-built GraphInfo ({} nodes, {} edges) does not deserialise through {what}: {e}", want.0.len(), want.1.len())),
+                Ok(b) => {
+                    if b != gi || content(&b) != want {
+                        return Some(format!("hand-built GraphInfo changed in a round trip through {what}: nodes {:?} edges {:?} came back as nodes {:?} edges {:?}", want.0, want.1, content(&b).0, content(&b).1));
+                    }
+                }
+            }
+        }
         None
     }));
     match r {
@@ -881,6 +900,26 @@ pub fn check_c17(gs: &GraphSpec, st: &mut Stats, out: &mut Vec<Violation>) {
         Ok(Some(m)) => out.push(v("C17", "round-trip-hand-built", m)),
         Ok(None) => st.count("hand_built_graph_infos_round_tripped"),
     }
+}
+
+/// Deserialisation paths other than `from_str`: deserialisers that own their input (readers,
+/// `Value` trees) cannot lend `&str`s, and byte slices go through yet another entry point. A value must
+/// come back equal through each of them.
+#[cfg(feature = "b")]
+fn other_transports<T>(gi: &T) -> Vec<(&'static str, Result<T, String>)>
+where
+    T: serde::Serialize + serde::de::DeserializeOwned,
+{
+    let mut v: Vec<(&'static str, Result<T, String>)> = Vec::new();
+    let es = |e: &dyn std::fmt::Display| e.to_string();
+    v.push(("yaml to_string/from_reader", serde_yaml_ng::to_string(gi).map_err(|e| es(&e)).and_then(|y| serde_yaml_ng::from_reader::<_, T>(std::io::Cursor::new(y.into_bytes())).map_err(|e| es(&e)))));
+    v.push(("yaml to_string/from_slice", serde_yaml_ng::to_string(gi).map_err(|e| es(&e)).and_then(|y| serde_yaml_ng::from_slice::<T>(y.as_bytes()).map_err(|e| es(&e)))));
+    v.push(("yaml to_value/from_value", serde_yaml_ng::to_value(gi).map_err(|e| es(&e)).and_then(|y| serde_yaml_ng::from_value::<T>(y).map_err(|e| es(&e)))));
+    v.push(("json to_vec/from_reader", serde_json::to_vec(gi).map_err(|e| es(&e)).and_then(|y| serde_json::from_reader::<_, T>(std::io::Cursor::new(y)).map_err(|e| es(&e)))));
+    v.push(("json to_vec/from_slice", serde_json::to_vec(gi).map_err(|e| es(&e)).and_then(|y| serde_json::from_slice::<T>(&y).map_err(|e| es(&e)))));
+    v.push(("json to_value/from_value", serde_json::to_value(gi).map_err(|e| es(&e)).and_then(|y| serde_json::from_value::<T>(y).map_err(|e| es(&e)))));
+    v.push(("json pretty/from_str", serde_json::to_string_pretty(gi).map_err(|e| es(&e)).and_then(|y| serde_json::from_str::<T>(&y).map_err(|e| es(&e)))));
+    v
 }
 
 // ------------------------------------------------------------------------------------------ C18
